@@ -169,6 +169,13 @@ impl EventGen for Container {
                     new_el.content_bbox = bbox;
                     context.update_element(&new_el);
                 }
+                if matches!(
+                    self.0.name.as_str(),
+                    "clipPath" | "mask" | "marker" | "pattern"
+                ) {
+                    // referenced (the box of the content was stored above), never drawn in place
+                    bbox = None;
+                }
 
                 if bbox.is_some() {
                     context.set_prev_element(&new_el);
